@@ -171,9 +171,12 @@ func TestVerifEnum(t *testing.T) {
 
 	// 4. splits of the byte stream into Write calls
 	lines := []string{"", "x", "1.2.3.4", "x 1.2.3.4 y", "dial 1.2.3.4:80: y", "x [2001:db8::1]:443", "::1", "x ::", "1:: y",
-		"(10.0.0.1)", "1.2.3.4 9.9.9.9", "1.2.3.4, ::1", "x=1:2:3:4:5:6:7:8;", "::ffff:1.2.3.4", "\t64:ff9b::1.2.3.4 ", "x\r"}
+		"(10.0.0.1)", "1.2.3.4 9.9.9.9", "1.2.3.4, ::1", "x=1:2:3:4:5:6:7:8;", "::ffff:1.2.3.4", "\t64:ff9b::1.2.3.4 ", "x\r",
+		// a line that STARTS with a bracketed address and port (after a line ending in an address the
+		// regexp, run over both lines at once, has no left delimiter for it and matches without the port)
+		"[::1]:80 -> 10.0.0.1:443", "[2001:db8::1]:8080"}
 	if th {
-		lines = append(lines, "x 1.2.3.4", "1.2.3.4 y", "[::1]:80 -> 10.0.0.1:443", "1.2.3.4;::1;1::", "fe80::ABCD:1%eth0", "a b c d e f", "1.2.3", ":", "[::]",
+		lines = append(lines, "x 1.2.3.4", "1.2.3.4 y", "1.2.3.4;::1;1::", "fe80::ABCD:1%eth0", "a b c d e f", "1.2.3", ":", "[::]",
 			"255.255.255.255:65535", "1:2:3:4:5:6:9.9.9.9.", "x_y", "1.2.3.4\t::1", "http://[2001:db8::1]:8080/x?y=1.2.3.4")
 	}
 	r.Begin("splits", fmt.Sprintf("inputs line1 \\n line2 [\\n] over %d lines (with and without addresses, empty, CR) x every split into <=3 non-empty Write calls through a real LogScrubber with a recording sink: same concatenated output as one Write per line, every sink call ends in \\n, nothing after the last newline is emitted, Write returns (len, nil)", len(lines)))
